@@ -751,12 +751,17 @@ func TestC15_Exhaustive(t *testing.T) {
 		t.Fatalf("HARNESS-BUG: vtu single-key ordered list not found")
 	}
 	cands := [][]model.Val{strKey("a"), strKey("b"), strKey("c")}
-	const maxLen = 5
+	// bound: length <= 5; in the quick tier the parent-level pass (pure delegation to the map-level
+	// methods) stops at length 4 to stay within the quick budget
 	shard, shards := ev.Shard(), ev.Shards()
 	var total, trips int64
 	seenFinal := map[string]bool{}
 	for _, viaParent := range []bool{false, true} {
 		alpha := c15Alphabet(viaParent)
+		maxLen := 5
+		if viaParent {
+			maxLen = ev.Scale(4, 5)
+		}
 		seq := make([]int, 0, maxLen)
 		var dfs func()
 		run := func() {
@@ -772,7 +777,7 @@ func TestC15_Exhaustive(t *testing.T) {
 			}
 			total++
 			fk := boolLabel(viaParent, "p", "m") + m.modelKeys()
-			if !seenFinal[fk] || total%211 == 0 {
+			if !seenFinal[fk] || total%499 == 0 {
 				seenFinal[fk] = true
 				trips++
 				for _, how := range []string{"json", "gnmi", "copy"} {
@@ -809,5 +814,5 @@ func TestC15_Exhaustive(t *testing.T) {
 	rec.Exhaustive()
 	rec.Add("exhaustive_sequences", total)
 	rec.Add("exhaustive_roundtrips", trips)
-	rec.Set("exhaustive_bound", fmt.Sprintf("all sequences of length 1..%d over %d operations, keys {a,b,c}, map-level and parent-level", maxLen, len(c15Alphabet(false))))
+	rec.Set("exhaustive_bound", fmt.Sprintf("all sequences of length 1..5 over %d operations on keys {a,b,c}: map-level methods; the same through the parent's helpers up to length %d", len(c15Alphabet(false)), ev.Scale(4, 5)))
 }
